@@ -12,15 +12,24 @@ from gv.model import battery, dbutil
 from gv.model.refdb import RefDB, RefAbort, impl_state
 
 ID = "C10"
-RULE = ("explicit-state BFS over histories whose first event picks one of four initial databases (GFF3 4-deep chain with directives, with / "
-        "without an id-less feature, the same imported with recorded duplicates, GTF with inference disabled) followed by events from "
-        "{update (7 GFF3 / 5 GTF bundles x merge strategies, one bundle holding only directives and comments), delete (id string / Feature / "
-        "list / one-shot generator of ids / generator of Feature objects), add_relation (plain, with attribute rewrite, naming unknown "
-        "ids), reopen, set_pragmas} on one live object over a file database; every reached state is compared with the reference model "
-        "(features in row order with bins, relation triples, duplicates, directives, id counters) through a second read-only connection "
-        "AND through the live object (count, region on every seqid, children filtered by every featuretype), and the .bak file with the "
-        "pre-operation state; one large history (1000 features deleted in a single call, then an update); fault runs: for every representative state up to depth 2, four update "
-        "bundles with the feature source raising after k = 0..n items. A state is non-trivial when it differs from the initial state")
+RULE = (
+    "Explicit-state BFS; the first event picks one of four initial file databases (GFF3 4-deep chain with directives with / without an "
+    "id-less feature, the chain with recorded duplicates, GTF with inference disabled), followed by up to 3 (quick) / 4 (thorough) "
+    "events: GFF3 family 26 = 15 updates (7 bundles x merge strategies, one bundle only a directive and a comment), 6 deletes (id "
+    "string, Feature, list, generator of ids, generator of Features), 3 add_relation (plain, attribute rewrite, unknown ids), reopen, "
+    "set_pragmas; GTF family 14 = 9 updates (5 bundles), 3 deletes, reopen, set_pragmas. Reads are interleaved before every event. "
+    "Every reached state (deduplicated on features, relations, autoincrements, duplicates and the live id counters) is checked: "
+    "features in row order and relation triples against the reference model through a second connection; live connection equals file; "
+    "dialect (live and reopened) and directives unchanged; filtered children, region per seqid, counts and look-ups of every id ever "
+    "stored through the live object; stored bins follow the coordinates; library globals unchanged; a fixed battery of ~25 kinds of "
+    "read calls over a fixed universe of ids / featuretypes / seqids (including ones that do not exist yet) is asked before the last "
+    "operation (thorough: before every operation) and after it, and the live object's answers must equal those of an object freshly "
+    "opened on the same file; for a final update/delete the .bak file (a stale, newer-dated .bak is planted first) equals the "
+    "pre-operation state. One scale history: 1000 of 1002 features deleted in a single call, then an update. Fault runs: for every "
+    "representative state reached by <= 2 events, update bundles B1-B4 (GTF: G2, G3) with the feature source raising after k = 0..n "
+    "items: backup present and equal to the pre-state, failure not swallowed. A state is non-trivial when it differs from the initial "
+    "state."
+)
 ASSUMPTIONS = [
     "small-scope: histories up to the stated depth over the stated alphabet; 'randomly beyond' is not sampled",
     "after a failed operation only the .bak file is checked (the statement does not define the main file's content)",
